@@ -433,6 +433,9 @@ def helper_resolver(fn: "FuncInfo"):
                 owner = mod.classes[f.value.id]
             if owner is not None:
                 m = owner.find_method(f.attr) if hasattr(owner, "find_method") else None
+                if m is not None and f.value.id in ("self", "cls") and hasattr(owner, "all_subclasses") and \
+                        any(f.attr in getattr(sub, "methods", {}) for sub in owner.all_subclasses()):
+                    m = None  # overridden in a subclass: the callee is not known statically
                 if m is not None:
                     cands = [m]
                     decs = [ast.unparse(d) for d in m.node.decorator_list]
